@@ -33,6 +33,7 @@ fn handle(ctx: &Ctx, line: &str) -> String {
         "REF" => common_fam::ref_case(ctx, &t),
         "LOAD" => common_fam::load_case(ctx, &t),
         "LOADBIG" => common_fam::loadbig_case(&t),
+        "DEPTH" => common_fam::depth_case(&t),
         "WALK" => common_fam::walk_case(ctx, &t),
         "RND" => common_fam::rnd_case(&t),
         "FBT" => ids_fam::fbt_case(ctx, &t),
